@@ -78,6 +78,7 @@ type srvGen struct {
 	regDone   bool
 	markerSeq int
 	authsSeen []glow.EquipmentAuthorization
+	maxOff    int64 // C20X: the last window offset whose arithmetic still fits 32 bits (0 = no bound)
 }
 
 func (g *srvGen) off() uint32 { return g.s.E.S.VerifSnapshot().ReportsOffset }
@@ -463,6 +464,10 @@ func (g *srvGen) opClock() {
 	if c < 0 {
 		c = 0
 	}
+	if g.maxOff > 0 && c > g.maxOff+3200 {
+		// no rotation may take the window past the no-overflow bound of the 32-bit offset
+		c = g.maxOff + 3200 - int64(r.Intn(3))
+	}
 	g.s.SetNow(uint32(c))
 }
 
@@ -509,7 +514,11 @@ func (g *srvGen) opStats() {
 	case 0:
 		tso = off
 	case 1:
-		if off > 0 {
+		if g.maxOff > 0 {
+			// C20X: the history of this directory does not reach back to slot 0 (it holds the seeded week and what
+			// the server archived itself); archived weeks are not asked for
+			tso = off
+		} else if off > 0 {
 			tso = 2016 * uint64(r.Intn(int(off/2016)))
 		}
 	case 2:
@@ -935,6 +944,7 @@ var focusWeights = map[string][]int{
 	"C13": {25, 10, 8, 3, 3, 6, 6, 3, 3, 1, 2, 2, 28},
 	"C05": {30, 12, 10, 4, 8, 4, 2, 1, 1, 6, 1, 3, 0, 16},
 	"C10": {25, 6, 8, 2, 2, 2, 20, 8, 8, 1, 0, 2, 16},
+	"C20X": {55, 6, 14, 6, 4, 5, 5, 0, 0, 1, 1, 3},
 }
 
 func runSrvScenario(focus string, seed uint64, size int, t *Trace) error {
@@ -953,7 +963,43 @@ func runSrvScenario(focus string, seed uint64, size int, t *Trace) error {
 	if r.Chance(30) {
 		start = uint32(r.Intn(3000))
 	}
+	if focus == "C20X" {
+		// a server at the far end of the 32-bit timeslot range (C20: "all (now, timeslot) pairs at the uint32
+		// extremes ... up to the no-overflow bound"): the directory holds one archived week, so the window
+		// starts 2016 slots after it. The last offset whose window still ends below 2^32 is 4294963008; the
+		// clock never goes further than 3200 slots past the last offset that can still be reached by
+		// rotations without crossing that bound.
+		// (the server only ever has offsets that are multiples of 2016 and refuses to build statistics for any other)
+		const lastOff = ((int64(1)<<32 - 4033) / 2016) * 2016
+		var off int64
+		switch r.Intn(5) {
+		case 0:
+			off = lastOff
+		case 1:
+			off = lastOff - 2016*int64(1+r.Intn(3))
+		case 2:
+			off = (int64(1)<<31/2016 - 2 + int64(r.Intn(4))) * 2016 // the window contains 2^31, the sign bit of a 32-bit integer
+		case 3:
+			off = lastOff - 2016*int64(r.Intn(1000))
+		default:
+			off = 2016 * int64(1+r.Intn(1<<20))
+		}
+		g.maxOff = off + 2016*((lastOff-off)/2016)
+		s.SeedWeek(uint32(off - 2016))
+		d := int64(r.Intn(3201))
+		switch r.Intn(4) {
+		case 0:
+			d = 3200 - int64(r.Intn(3))
+		case 1:
+			d = int64(r.Intn(440))
+		}
+		start = uint32(off + d)
+	}
 	if err := s.Boot(start); err != nil {
+		if s.Seeded {
+			t.DumpStats()
+			return nil
+		}
 		return err
 	}
 	w := focusWeights[focus]
@@ -1080,7 +1126,9 @@ func runSrvScenario(focus string, seed uint64, size int, t *Trace) error {
 		case 10:
 			s.ImpactRound()
 		case 11:
-			s.Rotate()
+			if g.maxOff == 0 || int64(g.off())+2016 <= g.maxOff {
+				s.Rotate()
+			}
 		case 12:
 			g.opInject()
 		case 13:
